@@ -67,7 +67,7 @@ impl<R: RealNumberInternalTrait> Library<R> {
     /// library/mod.rs Library::new(name, definitions): the library holds exactly these bindings
     #[verifier::external_body]
     pub fn new(library_name: LibraryName, definitions: DefMap<R>) -> (r: Self)
-        ensures lib_name(r) == library_name, lib_defs(r) == defs_view(${DEFS}) { unimplemented!() }
+        ensures lib_name(r) == library_name, lib_defs(r) == defs_view(definitions) { unimplemented!() }
 }
 /// rule X3s: `v.extend(items.iter())` (references to the items appended, in order)
 #[verifier::external_body]
